@@ -315,7 +315,13 @@ static mut RSP_ZERO: bool = false;
 static mut REGS_FAIL: bool = false;
 
 fn g_attach(_pid: nix::unistd::Pid) -> nix::Result<()> {
-    if kani::any() { unsafe { ATTACHED = true; } Ok(()) } else { Err(nix::errno::Errno::EPERM) }
+    // success, "not permitted" (already traced, sandbox) or "no such process" (the thread exited after it was listed)
+    let k: u8 = kani::any();
+    match k {
+        0 => { unsafe { ATTACHED = true; } Ok(()) }
+        1 => Err(nix::errno::Errno::EPERM),
+        _ => Err(nix::errno::Errno::ESRCH),
+    }
 }
 fn g_waitpid<P: Into<Option<nix::unistd::Pid>>>(pid: P, _f: Option<wait::WaitPidFlag>) -> nix::Result<wait::WaitStatus> {
     let p = pid.into().unwrap();
@@ -391,6 +397,9 @@ fn vk_suspend_thread_protocol() {
         assert!(CONTS == seen);                                                                           // [C03] nothing injected twice
         match r {
             Ok(()) => {
+                // [C11] [C04] a thread is reported as suspended only after it was attached and its SIGSTOP was seen: a failed
+                // attach (whatever the errno, incl. ESRCH for a thread that vanished) is an Err, which suspend_threads
+                // turns into a soft error and a dropped thread
                 assert!(WAITS >= 1 && WAIT_SIG[(WAITS - 1) as usize] == 0);                               // only after the SIGSTOP
                 assert!(!RSP_ZERO && !REGS_FAIL);                                                         // [C04] sandbox helper threads are skipped
                 assert!(ATTACHED);
